@@ -342,7 +342,7 @@ func matchKnown(known []knownFinding, pid string, v sx.Violation) *knownFinding 
 }
 
 func saveReplay(pid string, v sx.Violation) string {
-	dir := filepath.Join(verifDir, "replays", pid)
+	dir := filepath.Join(envOr("VX_REPLAY_DIR", filepath.Join(verifDir, "replays")), pid)
 	os.MkdirAll(dir, 0o755)
 	b, _ := json.MarshalIndent(v, "", " ")
 	h := sha1.Sum(b)
@@ -354,7 +354,7 @@ func saveReplay(pid string, v sx.Violation) string {
 // ---- evidence -------------------------------------------------------------------
 
 func writeEvidence(pid string, ev map[string]interface{}) error {
-	dir := filepath.Join(verifDir, "evidence")
+	dir := envOr("VX_EVIDENCE_DIR", filepath.Join(verifDir, "evidence"))
 	os.MkdirAll(dir, 0o755)
 	b, err := json.MarshalIndent(ev, "", " ")
 	if err != nil {
